@@ -312,6 +312,28 @@ def atomicity_probe(run: Run):
                 out.append(("atomicity", f"a bulk save of {n_rows} rows whose row {bad_at} fails raised={raised} and left {n} of its rows committed"))
         finally:
             shutil.rmtree(d, ignore_errors=True)
+    # a step's batch spans several tables: good epoch rows and agent rows of which two share their primary key - nothing of it may stay
+    from resonaate.data.agent import AgentModel
+
+    d = tempfile.mkdtemp(prefix="verif-c09-")
+    try:
+        db = ResonaateDatabase(db_path=f"sqlite:///{os.path.join(d, 'b.sqlite3')}", logger=logging.getLogger("verif-null"))
+        rows = [Epoch(julian_date=2459300.5 + k, timestampISO=(datetime(2021, 3, 27) + timedelta(days=k)).isoformat(timespec="microseconds")) for k in range(5)]
+        rows += [AgentModel(unique_id=10001, name="a"), AgentModel(unique_id=10002, name="b"), AgentModel(unique_id=10001, name="again")]
+        logging.disable(logging.CRITICAL)
+        try:
+            db.bulkSave(rows)
+            raised = False
+        except Exception:  # noqa: BLE001
+            raised = True
+        finally:
+            logging.disable(logging.NOTSET)
+        n_e, n_a = len(db.getData(Query(Epoch))), len(db.getData(Query(AgentModel)))
+        run.case("atomicity", {"rows": 8, "tables": 2}, True, branch="atomicity:mixed-tables")
+        if not raised or n_e or n_a:
+            out.append(("atomicity", f"a bulk save of 5 epoch rows and 3 agent rows of which two share a key raised={raised} and left {n_e} epoch and {n_a} agent rows committed"))
+    finally:
+        shutil.rmtree(d, ignore_errors=True)
     return out
 
 
